@@ -408,7 +408,7 @@ def discharge(vcs, program: Program, qual: str, extra_axioms=()) -> List[Obligat
                 status = FAILED_NO_INPUT
             else:
                 status = FAILED_NO_INPUT if r.status == "sat" else UNDECIDED
-            detail = f"{note + ': ' if note else ''}{r.status} {r.detail[:400]}"
+            detail = f"{note + ': ' if note else ''}{r.status} {r.detail[:300]} | goal: {str(goal)[:300]}"
             if status == FAILED_NO_INPUT: break
         out.append(Obligation(name, qual, "vc", status, backend, tsum, program.where(qual), detail, prover.RLIMIT))
     return out
